@@ -256,28 +256,30 @@ COQCHK_ALLOWED_AXIOMS = ["Coq.Logic.FunctionalExtensionality.functional_extensio
                          "Coq.Reals.ClassicalDedekindReals.sig_forall_dec", "Coq.Logic.Classical_Prop.classic"]
 
 
-def coqchk_once(timeout=3600):
-    """thorough tier: the compiled development (every Properties module and all it depends on, standard library and Flocq
-    included) is re-checked by Coq's independent checker, once per state of the hand-written sources (the two generated data
-    files of theories/Gen change from run to run and are not part of the key). Returns a dict for the evidence."""
+def coqchk_once(pid, timeout=3600):
+    """thorough tier: the compiled property module of this check and all it depends on (standard library and Flocq included)
+    are re-checked by Coq's independent checker, once per state of the sources. One module per check: the modules of other
+    properties may depend on data files regenerated from /repo (theories/Gen) and be stale or broken for reasons that are not
+    this property's. Returns a dict for the evidence."""
     import hashlib
     h = hashlib.sha256()
     root = os.path.join(COQ, "theories")
+    owns_gen = pid in GEN_OWNED.values()
     for dp, dn, fn in sorted(os.walk(root)):
-        if os.path.basename(dp) == "Gen":
+        if os.path.basename(dp) == "Gen" and not owns_gen:
             continue
         for f in sorted(fn):
             if f.endswith(".v"):
                 h.update(f.encode())
                 h.update(open(os.path.join(dp, f), "rb").read())
-    key = h.hexdigest()[:20]
+    key = pid + "-" + h.hexdigest()[:20]
     d = os.path.join(WORK, "coqchk")
     os.makedirs(d, exist_ok=True)
     stamp = os.path.join(d, key + ".json")
     with Lock("coqchk"):
         if os.path.exists(stamp):
             return dict(json.load(open(stamp)), reused=True)
-        mods = sorted("Verif.Properties." + f[:-3] for f in os.listdir(os.path.join(root, "Properties")) if f.endswith(".vo"))
+        mods = ["Verif.Properties." + pid]
         t0 = time.time()
         try:
             with Lock("coq"):
@@ -293,7 +295,7 @@ def coqchk_once(timeout=3600):
         clean = all(("* " + k) in out and "<none>" in out.split("* " + k)[1].split("*")[0]
                     for k in ("Constants/Inductives relying on type-in-type:", "Constants/Inductives relying on unsafe (co)fixpoints:",
                               "Inductives whose positivity is assumed:")) if rc == 0 else False
-        info = {"ok": rc == 0 and clean and all(a in COQCHK_ALLOWED_AXIOMS for a in axioms), "exit": rc, "axioms": axioms, "modules": len(mods),
+        info = {"ok": rc == 0 and clean and all(a in COQCHK_ALLOWED_AXIOMS for a in axioms), "exit": rc, "axioms": axioms, "modules": mods,
                 "seconds": round(time.time() - t0, 1), "sources_key": key, "detail": "" if rc == 0 else out[-1500:]}
         if rc != -1:
             json.dump(info, open(stamp, "w"))
@@ -494,11 +496,11 @@ class Check:
             self.violation("the extracted model differs from the Coq definitions on a case of this run (vm_compute inside Coq)",
                            {"theorem_or_correspondence": "extraction self-test", "detail": detail}, no_input=True)
         if self.tier == "thorough":
-            info = coqchk_once()
+            info = coqchk_once(self.pid)
             self.coverage["coqchk"] = {k: v for k, v in info.items() if k != "detail"}
             if not info["ok"]:
                 self.violation("the independent checker coqchk does not accept the compiled development (or reports an axiom outside the allow-list)",
-                               {"theorem_or_correspondence": "coqchk -o of every Properties module", "coqchk": info}, no_input=True)
+                               {"theorem_or_correspondence": "coqchk -o of the property module and all it depends on", "coqchk": info}, no_input=True)
         wall = time.time() - self.t0
         for cls, what in sorted(self.known_hit.items()):
             print("KNOWN-FINDING: property=%s class=%s %s" % (self.pid, cls, self.known[cls] or what))
